@@ -13,20 +13,23 @@ PROPS = {
         "level_text": "FULL for the connection code: unbounded theorems (window, forward/backward walks visit every element once in order, "
                       "truthful flags, end cursors, total, negative sizes rejected, foreign cursors ignored) about a model of NameCon; the "
                       "seven genny instances are shown to be the template by a regenerated obligation; model = code is validated "
-                      "exhaustively on small inputs and randomly on larger ones",
+                      "exhaustively on small inputs and randomly on larger ones; the cursor encoder of the source (OffsetToCursor: "
+                      "base-64 of cursor:<decimal offset>) is modelled and proved injective, so the walk theorems hold for it without "
+                      "any assumption (walk_forward_go, walk_backward_go)",
         "level_note": "Trusted: Lean kernel, the extractor, the harness/comparer. Assumed: edge makers use OffsetToCursor(offset) (true of all "
-                      "call sites), the cursor encoder is injective (validated, not proved), the source list does not change between the "
+                      "call sites), the source list does not change between the "
                       "requests of one walk (the resolvers recompute it per request from map-ordered data: outside the connection code).",
         "required_theorems": ["page_window", "page_inside_cursors", "walk_forward", "walk_backward", "hasNext_truthful",
                               "hasPrev_truthful", "cursors_are_ends", "total_is_length", "negative_first_rejected",
-                              "negative_last_rejected", "foreign_after_ignored", "foreign_before_ignored"],
+                              "negative_last_rejected", "foreign_after_ignored", "foreign_before_ignored",
+                              "goEnc_injective", "walk_forward_go", "walk_backward_go"],
         "slices": ["C20"],
         "rule": "exhaustive over n<=N x cursor candidates^2 x first/last in {nil,-1..N+1} on one template instance, "
                 "plus random larger inputs on the other instances; a case is non-trivial when the page is a proper, "
                 "non-empty part of the list; distinct = distinct (n, cursor classes, first, last, page)",
         "trusted_base": [KERNEL, TIE,
                          "model: GitBugModel.Conn (paginate, walkForward, walkBackward) for connections.NameCon and its genny instances",
-                         "cursor encoder is a parameter (any injective enc); OffsetToCursor's injectivity is validated by the correspondence run, not proved",
+                         "cursor encoder: theorems hold for any injective enc; OffsetToCursor itself is modelled (GitBugModel.Cursor: decimal, prefix, base-64 with padding), proved injective (goEnc_injective) and compared with the implementation's cursors on every case",
                          "gqlgen argument decoding and the resolvers' choice of source list are outside the model"],
         "assumptions": ["the source list is the same for every page of one walk (the resolvers recompute it per request)",
                         "edge makers build the cursor as OffsetToCursor(offset), as all call sites in api/graphql/resolvers do"],
@@ -373,7 +376,7 @@ PROPS = {
         "level_note": "Trusted: Lean kernel, the extractor (its read-only allowlist of callee names is the modelled part: a callee named there "
                       "is assumed not to change the repository), harness. The correspondence run checks that assumption from outside: refs, "
                       "object count, cache content before/after every refused request. gqlgen's dispatch is exercised, not modelled.",
-        "required_theorems": ["gate_general", "no_user_no_change", "no_user_refused", "with_user", "gen_gated", "gen_schema_covered", "gen_authored"],
+        "required_theorems": ["gate_general", "no_user_no_change", "no_user_refused", "with_user", "gen_gated", "gen_schema_covered", "gen_authored", "recorded_general", "gen_recorded"],
         "slices": ["C17"],
         "rule": "in-process graphql.NewHandler and NewGitUploadFileHandler over a go-git repository with a user identity and bugs; every "
                 "mutation field found by introspection x {no user, user} x {valid, invalid arguments}; refs, object files and cache "
